@@ -111,12 +111,32 @@ def vc_float(x=0.0):
     return builtins.float(x)
 
 
-def vc_str(x=''):
-    if isinstance(x, SymKey):
-        return x                  # ids are strings: str(id) is the identity
-    if _sym(x):
-        return OpaqueStr('<sym>')
-    return builtins.str(x)
+class _StrMeta(type):
+    """the shadowed name `str` must still BE str in comparisons such as `type(x) != str` and in isinstance()"""
+
+    def __eq__(cls, other):
+        return other is cls or other is builtins.str
+
+    def __ne__(cls, other):
+        return not (other is cls or other is builtins.str)
+
+    def __hash__(cls):
+        return hash(builtins.str)
+
+    def __instancecheck__(cls, x):
+        return isinstance(x, (builtins.str, SymKey))
+
+    def __subclasscheck__(cls, sub):
+        return issubclass(sub, builtins.str)
+
+
+class vc_str(builtins.str, metaclass=_StrMeta):
+    def __new__(cls, x='', *a):
+        if isinstance(x, SymKey):
+            return x                  # ids are strings: str(id) is the identity
+        if _sym(x):
+            return OpaqueStr('<sym>')
+        return builtins.str(x, *a)
 
 
 def vc_type(x, *a):
